@@ -206,3 +206,11 @@ Definition multi_support (nvec : list nat) (l : list Q) (legal : list bool) : li
 Definition bit_can_be_one (x : Q) : bool := Qltb (- x) UNDERFLOW.
 Definition binary_support (l : list Q) (legal : list bool) : list bool :=
   map bit_can_be_one (masked_logits l legal).
+
+(* ------------------------------------------------------------------ IPPO: homogeneous agents share one actor *)
+(* extract_action_masks stacks the masks of the agents of a group (np.array of per-agent arrays, each with one row
+   per environment); apply_mask views the stack with the shape of the logits, whose rows are the agents'
+   observation batches concatenated: agent-major order *)
+Definition ippo_stack {A} (per_agent : list (list A)) : list A := concat per_agent.
+Definition ippo_supports (l : list Q) (per_agent_masks : list (list (list bool))) : list (list nat) :=
+  map (masked_support l) (ippo_stack per_agent_masks).
